@@ -88,6 +88,8 @@ WRollback ==
     /\ w' = IdleW
     /\ UNCHANGED << db, r, op, exp >>
 
+WErrorReturn == WRollback
+
 \* The transaction ends without a write commit and without a rollback: it wrote nothing (COMMIT of a
 \* read-only transaction; neither hook fires).  Nothing becomes durable.
 WEnd ==
@@ -215,7 +217,7 @@ CanCommit == Wal \/ ~(r.txn /\ r.has) \/ Mutant = "ReaderNoTxn"
 \* "Repeating the failed operation afterwards succeeds": afterwards = without a new fault and, with a
 \* rollback journal, once the reader that blocked the commit is gone.
 PStart ==
-    /\ pc.at \in {"idle", "failed", "crashed"}
+    /\ pc.at \in {"idle", "failed", "recovered"}
     /\ pc.at = "failed" => Wal \/ pc.rd # "txn"
     /\ OpStart(IF pc.at = "failed" THEN "retry" ELSE IF pc.flt > 0 THEN "fault" ELSE "plain")
     /\ pc' = [pc EXCEPT !.at = IF Mutant = "StmtOutsideTxn" /\ 1 \notin db.data THEN "early" ELSE "begin", !.i = 1,
@@ -289,8 +291,15 @@ Crash ==
     /\ pc' = [pc EXCEPT !.at = "crashed", !.rd = "done", !.cr = 1, !.flt = 0]
     /\ UNCHANGED << db, exp >>
 
+\* The database is reopened: the hot journal is rolled back / the WAL tail without a commit record is
+\* ignored.  What recovery yields is `db` (the commit point is WCommit: SQLite's atomic commit is trusted).
+Recover ==
+    /\ pc.at = "crashed"
+    /\ Go("recovered")
+    /\ UNCHANGED dbvars
+
 Next == \/ PStart \/ PEarly \/ PBegin \/ PStmt \/ PMidCommit \/ PFault \/ PCommit
-        \/ PErr \/ PRetOk \/ PRetErr \/ PRBegin \/ PRRead \/ PREnd \/ Crash
+        \/ PErr \/ PRetOk \/ PRetErr \/ PRBegin \/ PRRead \/ PREnd \/ Crash \/ Recover
 
 Spec == Init /\ [][Next]_vars
 
@@ -299,5 +308,5 @@ TypeOK ==
     /\ w.txn \in BOOLEAN
     /\ r.txn \in BOOLEAN /\ r.n \in 0..MaxReads
     /\ op.st \in {"idle", "run", "end", "crashed"} /\ op.commits \in Nat
-    /\ pc.at \in {"idle", "early", "begin", "stmt", "midcommit", "err", "ret_ok", "ret_err", "failed", "crashed", "done"}
+    /\ pc.at \in {"idle", "early", "begin", "stmt", "midcommit", "err", "ret_ok", "ret_err", "failed", "crashed", "recovered", "done"}
 =============================================================================
